@@ -2,9 +2,13 @@ package props
 
 import (
 	"bytes"
+	"encoding/csv"
 	"fmt"
 	"math/rand"
+	"os"
+	"path/filepath"
 	"sort"
+	"strings"
 	"time"
 
 	"github.com/go-logr/logr"
@@ -19,6 +23,7 @@ import (
 // C04 — diff reports exactly the rows added, removed and modified between two tables.
 
 type c04Params struct {
+	CLI       bool    `json:"cli,omitempty"` // through `wrgl diff A B --no-gui`: the DIFF_*.csv report is parsed and judged
 	Scenario  string  `json:"scenario"`
 	N1        int     `json:"n1"`
 	N2        int     `json:"n2"`
@@ -329,6 +334,9 @@ func c04Run(c *fw.Case, env *fw.Env) *fw.Obs {
 	if p.ColsDiff {
 		class += "/cols-differ"
 	}
+	if p.CLI {
+		return c04CLI(c, env, o, &p, cols, rows1, rows2, class)
+	}
 	db1 := mon.NewMemStore()
 	var db2 objects.Store = db1
 	if p.TwoStores {
@@ -397,6 +405,13 @@ func c04Run(c *fw.Case, env *fw.Env) *fw.Obs {
 			o.Ev("events_removed", int64(r))
 			o.Ev("events_modified", int64(m))
 		}
+		if cl == "" && ce {
+			if rcl, rdetail := c04Readers(d.dbA, d.dbB, d.sA, d.sB, events, d.vA, d.vB); rcl != "" {
+				o.Violate(rcl+"/"+class, "%s: %s", d.name, rdetail)
+			} else {
+				o.Ev("events_resolved_through_readers", int64(len(events)))
+			}
+		}
 		if d.name == "diff(T1,T1)" && len(events) != 0 && err == nil {
 			// already reported by checkDiff as event-for-identical-row; keep an explicit clause
 			o.Ev("self_diff_events", int64(len(events)))
@@ -446,8 +461,277 @@ func init() {
 				}
 				l.Add("pair", p, 0)
 			}
+			// the report of `wrgl diff A B --no-gui` (keyed, composite and keyless tables)
+			for i := 0; i < l.N(24, 1500); i++ {
+				p := c04Params{CLI: true, Scenario: scen[rng.Intn(len(scen))], NCols: 2 + rng.Intn(3), ModRate: []float64{0, 0.1, 0.5}[rng.Intn(3)]}
+				p.N1, p.N2 = []int{1, 3, 40, 260}[rng.Intn(4)], []int{1, 3, 40, 260}[rng.Intn(4)]
+				p.PK = gen.PKChoice(rng, p.NCols)
+				if i%3 == 0 {
+					p.PK = nil
+				}
+				l.Add("cli", p, 0)
+			}
 			return l.Cases
 		},
 		Run: c04Run,
 	})
+}
+
+// c04Readers resolves the events back to rows through the readers the diff command uses (RowListReader for added and
+// removed rows, RowChangeReader for modified ones): "each event's offsets address the right rows" as the consumer sees it.
+func c04Readers(dbA, dbB objects.Store, sA, sB []byte, events []diffEvent, vA, vB *tblView) (clause, detail string) {
+	tA, err := objects.GetTable(dbA, sA)
+	if err != nil {
+		return "", ""
+	}
+	tB, err := objects.GetTable(dbB, sB)
+	if err != nil {
+		return "", ""
+	}
+	cd := diff.CompareColumns([2][]string{tB.Columns, tB.PrimaryKey()}, [2][]string{tA.Columns, tA.PrimaryKey()})
+	colOf := map[string]int{}
+	for i, c := range tA.Columns {
+		colOf[c] = i
+	}
+	var added, removed *diff.RowListReader
+	var changed *diff.RowChangeReader
+	var addedIdx, removedIdx []int
+	var changedIdx [][2]int
+	for _, e := range events {
+		i1, i2 := vA.byKey[e.PK], vB.byKey[e.PK]
+		switch {
+		case e.OldSum == "":
+			if added == nil {
+				if added, err = diff.NewRowListReader(dbA, tA); err != nil {
+					return "reader-error/RowListReader", err.Error()
+				}
+			}
+			added.Add(e.Offset)
+			addedIdx = append(addedIdx, i1)
+		case e.Sum == "":
+			if removed == nil {
+				if removed, err = diff.NewRowListReader(dbB, tB); err != nil {
+					return "reader-error/RowListReader", err.Error()
+				}
+			}
+			removed.Add(e.OldOffset)
+			removedIdx = append(removedIdx, i2)
+		default:
+			if changed == nil {
+				if changed, err = diff.NewRowChangeReader(dbA, dbB, tA, tB, cd); err != nil {
+					return "reader-error/RowChangeReader", err.Error()
+				}
+			}
+			changed.AddRowDiff(&objects.Diff{PK: []byte(e.PK), Sum: []byte(e.Sum), OldSum: []byte(e.OldSum), Offset: e.Offset, OldOffset: e.OldOffset})
+			changedIdx = append(changedIdx, [2]int{i1, i2})
+		}
+	}
+	var rcl, rdetail string
+	if pn := fw.Catch(func() {
+		for k, i := range addedIdx {
+			row, err := added.Read()
+			if err != nil || !strEq(row, vA.rows[i]) {
+				rcl, rdetail = "reader-wrong-row/RowListReader", fmt.Sprintf("added event %d resolves to %q (err %v), the row is %q", k, trunc(row), err, trunc(vA.rows[i]))
+				return
+			}
+		}
+		for k, i := range removedIdx {
+			row, err := removed.Read()
+			if err != nil || !strEq(row, vB.rows[i]) {
+				rcl, rdetail = "reader-wrong-row/RowListReader", fmt.Sprintf("removed event %d resolves to %q (err %v), the row is %q", k, trunc(row), err, trunc(vB.rows[i]))
+				return
+			}
+		}
+		for k, ix := range changedIdx {
+			merged, err := changed.Read()
+			if err != nil || len(merged) != len(cd.Names) {
+				rcl, rdetail = "reader-wrong-row/RowChangeReader", fmt.Sprintf("modified event %d: err %v, %d cells for %d columns", k, err, len(merged), len(cd.Names))
+				return
+			}
+			for j, name := range cd.Names {
+				c := colOf[name]
+				nv, ov := vA.rows[ix[0]][c], vB.rows[ix[1]][c]
+				want := []string{nv}
+				if nv != ov {
+					want = []string{nv, ov}
+				}
+				if !strEq(merged[j], want) {
+					rcl, rdetail = "reader-wrong-row/RowChangeReader", fmt.Sprintf("modified event %d, column %s: reader gives %q, the rows at the event's offsets hold %q", k, name, trunc(merged[j]), trunc(want))
+					return
+				}
+			}
+		}
+	}); pn != "" {
+		return "panic/row-readers", pn
+	}
+	return rcl, rdetail
+}
+
+// c04CLI commits the two tables to two branches and judges the report file of `wrgl diff a b --no-gui`.
+func c04CLI(c *fw.Case, env *fw.Env, o *fw.Obs, p *c04Params, cols []string, rows1, rows2 [][]string, class string) *fw.Obs {
+	class += "/cli"
+	t1 := gen.Normalize(&gen.Table{Cols: cols, Rows: rows1})
+	t2 := gen.Normalize(&gen.Table{Cols: cols, Rows: rows2})
+	pk := p.PK
+	if len(pk) == 0 {
+		pk = make([]int, len(cols))
+		for i := range pk {
+			pk[i] = i
+		}
+	}
+	if gen.Model(t1.Rows, pk, len(cols)).Dups > 0 || gen.Model(t2.Rows, pk, len(cols)).Dups > 0 || len(t1.Rows) != len(rows1) || len(t2.Rows) != len(rows2) {
+		o.Note = "keys collide after CSV normalisation; skipped"
+		return o
+	}
+	root := filepath.Join(env.Dir, "repo-"+c.ID)
+	os.RemoveAll(root)
+	defer os.RemoveAll(root)
+	wd, err := mon.NewRepo(root)
+	if err != nil {
+		o.Status = "inconclusive"
+		o.Note = err.Error()
+		return o
+	}
+	pkNames := gen.ColNames(cols, p.PK)
+	for _, b := range []struct {
+		name string
+		t    *gen.Table
+	}{{"a", t1}, {"b", t2}} {
+		fp := filepath.Join(root, b.name+".csv")
+		os.WriteFile(fp, gen.ToCSV(b.t, 0), 0644)
+		args := []string{"commit", b.name, fp, "c", "--no-progress", "-n", "3"}
+		if len(pkNames) > 0 {
+			args = append(args, "-p", strings.Join(pkNames, ","))
+		}
+		if out, err, pn := mon.Wrgl(wd, nil, args...); err != nil || pn != "" {
+			o.Status = "inconclusive"
+			o.Note = fmt.Sprintf("commit %s: %v %s %s", b.name, err, pn, out)
+			return o
+		}
+	}
+	cwd, _ := os.Getwd()
+	old, _ := filepath.Glob(filepath.Join(cwd, "DIFF_*.csv"))
+	for _, f := range old {
+		os.Remove(f)
+	}
+	out, err, pn := mon.Wrgl(wd, nil, "diff", "a", "b", "--no-gui")
+	o.Ev("oracle_evaluations", 1)
+	o.Ev("cli_diff_reports", 1)
+	if pn != "" {
+		o.Violate("panic/wrgl-diff/"+class, "%s", pn)
+		return o
+	}
+	if err != nil {
+		o.Violate("diff-error/wrgl-diff/"+class, "%v %s", err, out)
+		return o
+	}
+	files, _ := filepath.Glob(filepath.Join(cwd, "DIFF_*.csv"))
+	keyOf := func(r []string) string {
+		var ks []string
+		for _, k := range pk {
+			if k < len(r) {
+				ks = append(ks, fmt.Sprintf("%d:%s", len(r[k]), r[k]))
+			}
+		}
+		return strings.Join(ks, "|")
+	}
+	m1, m2 := map[string][]string{}, map[string][]string{}
+	for _, r := range t1.Rows {
+		m1[keyOf(r)] = r
+	}
+	for _, r := range t2.Rows {
+		m2[keyOf(r)] = r
+	}
+	wantAdded, wantRemoved, wantMod := 0, 0, 0
+	for k, r := range m1 {
+		if r2, ok := m2[k]; !ok {
+			wantAdded++
+		} else if !strEq(r, r2) {
+			wantMod++
+		}
+	}
+	for k := range m2 {
+		if _, ok := m1[k]; !ok {
+			wantRemoved++
+		}
+	}
+	if len(files) != 1 {
+		if wantAdded+wantRemoved+wantMod == 0 && len(files) == 0 {
+			return o // nothing to report and no report: fine
+		}
+		o.Violate("report-missing/wrgl-diff/"+class, "expected one DIFF_*.csv, found %v; output %q", files, out)
+		return o
+	}
+	b, _ := os.ReadFile(files[0])
+	os.Remove(files[0])
+	// the file is not rectangular only if wrgl writes it so; parse leniently line by line
+	rd := csv.NewReader(bytes.NewReader(b))
+	rd.FieldsPerRecord = -1
+	recs, perr := rd.ReadAll()
+	if perr != nil || len(recs) < 4 {
+		o.Violate("report-unparsable/wrgl-diff/"+class, "%v (%d records)", perr, len(recs))
+		return o
+	}
+	// every row line is laid out in the merged column order of the two tables (key columns first)
+	names := diff.CompareColumns([2][]string{cols, pkNames}, [2][]string{cols, pkNames}).Names
+	toRow := func(cells []string) []string {
+		r := make([]string, len(cols))
+		for j, n := range names {
+			for ci, cn := range cols {
+				if cn == n && j < len(cells) {
+					r[ci] = cells[j]
+				}
+			}
+		}
+		return r
+	}
+	gotAdded, gotRemoved, gotMod := 0, 0, 0
+	seen := map[string]bool{}
+	var base []string
+	for _, rec := range recs[4:] {
+		label, row := rec[0], toRow(rec[1:])
+		k := keyOf(row)
+		switch {
+		case strings.HasPrefix(label, "ADDED IN"):
+			if r, ok := m1[k]; !ok || m2[k] != nil || !strEq(r, row) || seen["a"+k] {
+				o.Violate("spurious-added/wrgl-diff/"+class, "report lists %q as added; in a: %v, in b: %v", trunc(row), m1[k] != nil, m2[k] != nil)
+				return o
+			}
+			seen["a"+k] = true
+			gotAdded++
+		case strings.HasPrefix(label, "REMOVED IN"):
+			if r, ok := m2[k]; !ok || m1[k] != nil || !strEq(r, row) || seen["r"+k] {
+				o.Violate("spurious-removed/wrgl-diff/"+class, "report lists %q as removed; in a: %v, in b: %v", trunc(row), m1[k] != nil, m2[k] != nil)
+				return o
+			}
+			seen["r"+k] = true
+			gotRemoved++
+		case strings.HasPrefix(label, "BASE ROW FROM"):
+			base = row
+		case strings.HasPrefix(label, "MODIFIED IN"):
+			if base == nil || keyOf(base) != k || !strEq(m2[k], base) || !strEq(m1[k], row) || strEq(base, row) || seen["m"+k] {
+				o.Violate("spurious-modified/wrgl-diff/"+class, "report lists %q -> %q as modified; the tables hold %q -> %q", trunc(base), trunc(row), trunc(m2[k]), trunc(m1[k]))
+				return o
+			}
+			seen["m"+k] = true
+			base = nil
+			gotMod++
+		default:
+			o.Violate("report-unparsable/wrgl-diff/"+class, "unknown line label %q", label)
+			return o
+		}
+	}
+	if gotAdded != wantAdded || gotRemoved != wantRemoved || gotMod != wantMod {
+		o.Violate("report-incomplete/wrgl-diff/"+class, "report lists %d added / %d removed / %d modified rows, the tables differ by %d / %d / %d (key %v)", gotAdded, gotRemoved, gotMod, wantAdded, wantRemoved, wantMod, pkNames)
+		return o
+	}
+	o.Ev("events_added", int64(gotAdded))
+	o.Ev("events_removed", int64(gotRemoved))
+	o.Ev("events_modified", int64(gotMod))
+	if len(t1.Rows)+len(t2.Rows) >= 2 {
+		o.Key("%s/%d-%d/%d", class, len(t1.Rows), len(t2.Rows), c.Seed%100000)
+	}
+	o.Set("scenario", class)
+	o.Sample = map[string]interface{}{"scenario": p.Scenario, "via": "wrgl diff --no-gui", "rows1": len(t1.Rows), "rows2": len(t2.Rows), "pk": pkNames, "added/removed/modified": fmt.Sprintf("%d/%d/%d", gotAdded, gotRemoved, gotMod)}
+	return o
 }
